@@ -1,13 +1,15 @@
 import json, os, subprocess
 
 SPEC = {
-    "lean_modules": ["SemaModel.C05.Props"],
+    "lean_modules": ["SemaModel.C05.Props", "SemaModel.C05.Formula"],
     "lean_dirs": ["SemaModel/C05"],
     "harness": "c05",
     "harness_args": {"quick": ["-n", 900, "-q", 6], "thorough": ["-n", 6000, "-q", 8]},
     "level": "proof",
     "tie": "T3: the hand-written model of shard/index/text/text.go (+ the text arm of dispatch.go) is run by the Lean driver on the same batches and queries as a real shard (bbolt file and memory backend alternate); after every batch the real text index bucket (_numDocuments, t<term>s, d<id>) is dumped and compared with the model state, every query answer (ids, order, _score/_hybridScore bit patterns) is compared with the model's answer, the float32 scores being handed to the model as opaque patterns taken from the real code. The property itself is also evaluated directly on every real answer against a corpus kept by the harness and the real bleve analyser. Histories: text-level scenarios (go/cmd/c05/scenarios.txt) replayed first, then random histories whose rewrites are partly derived from the text a point has or had (same tokens / same multiset / same vocabulary and length with frequencies moved / terms exchanged or renamed / one occurrence more or less / every tf kept / another document's text / an earlier text of the point, texts rotating between documents, deleted points coming back with their text); what each rewrite preserved is measured and reported in the distribution. After every batch the stored bucket is also compared with the corpus statistics computed from scratch, and every term on which they differ is queried (the verdict still comes from the property oracle on the real answer).",
     "required_theorems": [
+        # formula theorems (Formula.lean; notes/T1ext.md section 8): the scoring expressions generated from text.go, composed with the structural theorem
+        "Sema.C05.C05_score_step", "Sema.C05.C05_tf_formula", "Sema.C05.C05_idf_formula", "Sema.C05.C05_score0_formula", "Sema.C05.C05_score_generated", "Sema.C05.C05_match_ordered", "Sema.C05.C05_score_formula", "Sema.C05.C05_hybrid_formula", "Sema.C05.C05_weight_default", "Sema.C05.C05_match_generated",
         "Sema.C05.C05_maintain", "Sema.C05.C05_flush", "Sema.C05.C05_history", "Sema.C05.C05_stats",
         "Sema.C05.C05_inv_unique", "Sema.C05.C05_scratch", "Sema.C05.C05_order", "Sema.C05.C05_order_distinct",
         "Sema.C05.C05_dup_witness", "Sema.C05.C05_match", "Sema.C05.C05_empty_query",
